@@ -824,6 +824,18 @@ def judge_c08(ops, impl):
                         gsd.pop('Content-Length', None); hsd.pop('Content-Length', None)
                         if gsd != hsd:
                             bad.append((i, 'headers sent with the HEAD answer %r differ from those sent with GET %r' % (hsd, gsd)))
+                    elif gs not in ('-', None):
+                        # HEAD never sent the header itself: net/http sends the map as it is when the handler returns
+                        gsd = dec_hdr(gs); hsd = dec_hdr(f.get('live', '%-'))
+                        gsd.pop('Content-Length', None); hsd.pop('Content-Length', None)
+                        if gsd != hsd:
+                            hid0 = int(f['base'][5:]); acts0 = scripts.get(hid0, '%-').split(';')
+                            def final(a):      # an informational WriteHeader (1xx except 101) sends nothing final
+                                return a.startswith('b:') or (a.startswith('w:') and not (100 <= int(a[2:]) <= 199 and int(a[2:]) != 101))
+                            fw = next((k for k, a in enumerate(acts0) if final(a)), None)
+                            late = fw is not None and acts0[fw].startswith('b:') and any(a[:2] in ('s:', 'a:', 'd:') for a in acts0[fw + 1:])
+                            bad.append((i, 'headers sent with the HEAD answer %r differ from those sent with GET %r%s' % (hsd, gsd,
+                                        ' (late-header: the handler changes a header after its first body write)' if late else '')))
                     hid = int(f['base'][5:])
                     acts = scripts.get(hid, '%-')
                     if acts != '%-' and 'w:' not in acts and 'content-length' not in acts.lower():
